@@ -72,6 +72,24 @@ chk("C03", "model_checking",
     "bounded-exhaustive comment-placement x configuration enumeration with comment-list and token oracles", "3/C03")
 
 
+chk("C04", "model_checking",
+    "Stateless bounded-exhaustive exploration: statement shapes (depth 1 in four renderings incl. multi-line conditions, depth 2), "
+    "return/semicolon/integer-spelling/enum/include/infinite-loop/#if units x every mod_* option at every value, all pairs inside the "
+    "brace family (quick) plus paren/int/sort pairs and mod x nl/sp pairs (thorough), and the shipped profiles; oracle: after deleting the "
+    "token kinds the ENABLED options are documented to add or remove, the token sequences of input and output are equal (multisets "
+    "for sort/move options); brackets stay balanced and are added/removed in pairs; with all mod_ options at default nothing changes.",
+    "permitted-token table written from the option descriptions; C and C++ only",
+    "bounded-exhaustive program x mod-option enumeration (k<=2) with token-diff oracle", "3/C04")
+chk("C05", "model_checking",
+    "History explorer of length 3 (format, format again, once more) on the real binary for every (program, original layout, "
+    "profile): generated statement packs, declaration/preprocessor units in C and C++, expression packs in up to 7 uniform layouts x "
+    "{defaults + 15 curated profiles}; thorough adds every C/C++ corpus file <= 40 kB x the same profiles as a fixed universe with "
+    "individually listed exceptions. Oracle: pass 2 == pass 1, pass 3 == pass 2 byte for byte and --check passes on pass 1; weak claim "
+    "(second pass exits 0) for every single deviation over the read set.",
+    "profile set = defaults + /verif/profiles/*.cfg; unstable (file, profile) pairs are recorded one by one in known_findings.txt",
+    "exhaustive enumeration of length-3 formatting histories over a finite program x layout x profile universe", "3/C05")
+
+
 def main():
     commits = subprocess.run(["git", "-C", "/repo", "log", "--format=%h %s"], stdout=subprocess.PIPE, text=True).stdout.splitlines()
     hooks = [c.split()[0] for c in commits if c.split(" ", 1)[1].startswith("verif hook:")]
